@@ -65,9 +65,10 @@ theorem indexOf_head (g : Graph) (nm : String) (h : g.names.head? = some nm) : g
     have : 0 < g.nodes.length := by omega
     simp [this]
 
-/-- one strict-flavour call keeps the strict rule (`set_depot` only of the node that is already first) -/
-theorem strict_step_aux (g : Graph) (hg : C15.Inv g) (hs : StrictArcs g) (op : GOp)
-    (hdep : ∀ nm, op = .setDepot nm → g.names.head? = some nm) :
+/-- **one strict-flavour call keeps the strict rule** — every call, `set_depot` of any node included:
+    the repaired strict `set_depot` re-adds every stored arc through the strict `add_arc` after the move, so
+    the arcs that were admitted under the depot exemption of the node that used to be first are re-tested -/
+theorem strict_step' (g : Graph) (hg : C15.Inv g) (hs : StrictArcs g) (op : GOp) :
     StrictArcs (gstep (.seq true) g op).1 := by
   cases op with
   | addNode nm d lo hi =>
@@ -107,18 +108,40 @@ theorem strict_step_aux (g : Graph) (hg : C15.Inv g) (hs : StrictArcs g) (op : G
           · exact hs e he hne
         · rw [if_neg hok]; exact hs
   | setDepot nm =>
-    have hidx := indexOf_head g nm (hdep nm rfl)
     rw [C15.gstep_setDepot_seq]
-    obtain ⟨n0, _, _, heq⟩ := C15.setDepotSeq_ok g nm 0 hidx
-    have hb : setDepotBase g nm = (g, .ok none) := by unfold setDepotBase; simp [hidx]
-    rw [heq, hb]
-    intro e he hne
-    show (match g.hi e.1.1 with
-      | none => g.hi e.1.2 = none
-      | some b => leE (b + e.2.time) (g.hi e.1.2) = true)
-    rcases mem_dictSet he with rfl | he
-    · exact absurd rfl hne
-    · exact hs e he hne
+    cases hd : g.indexOf? nm with
+    | none => rw [C15.setDepotSeq_err true g nm hd]; exact hs
+    | some d =>
+      obtain ⟨n0, _, _, heq⟩ := C15.setDepotSeq_ok true g nm d hd
+      rw [heq]
+      have hb : C15.Inv (setDepotBase g nm).1 := C15.setDepotBase_inv g nm hg
+      have hrn : (C15.seqRecheck true (setDepotBase g nm).1).nodes = (setDepotBase g nm).1.nodes :=
+        C15.seqRecheck_nodes true _
+      intro e he hne
+      show (match (C15.seqRecheck true (setDepotBase g nm).1).hi e.1.1 with
+        | none => (C15.seqRecheck true (setDepotBase g nm).1).hi e.1.2 = none
+        | some b => leE (b + e.2.time) ((C15.seqRecheck true (setDepotBase g nm).1).hi e.1.2) = true)
+      rcases mem_dictSet he with rfl | he
+      · exact absurd rfl hne
+      · -- a surviving arc passed the strict `add_arc` test at its (new) key, with the new node order
+        have he' : e ∈ (recheckArcs (setDepotBase g nm).1 (fun i => true && i != 0)).arcs := he
+        obtain ⟨_, hpass⟩ := C15.recheckArcs_mem _ hb _ e he'
+        unfold C15.recheckPass at hpass
+        beta_reduce at hpass
+        have hr : (true && e.1.1 != 0) = true := by simp [hne]
+        rw [hr] at hpass
+        unfold C15.okTiming at hpass
+        simp only [if_true] at hpass
+        rw [Graph.hi_congr_nodes hrn e.1.1, Graph.hi_congr_nodes hrn e.1.2]
+        cases hh : (setDepotBase g nm).1.hi e.1.1 with
+        | none => rw [hh] at hpass; simpa using hpass
+        | some b => rw [hh] at hpass; exact hpass
+
+/-- the earlier, weaker form (kept for compatibility) -/
+theorem strict_step_aux (g : Graph) (hg : C15.Inv g) (hs : StrictArcs g) (op : GOp)
+    (_hdep : ∀ nm, op = .setDepot nm → g.names.head? = some nm) :
+    StrictArcs (gstep (.seq true) g op).1 :=
+  strict_step' g hg hs op
 
 theorem fold_strict (arcs : List (Key × Arc)) (g : Graph) (hg : C15.Inv g) (hs : StrictArcs g) :
     StrictArcs (arcs.foldl
@@ -129,9 +152,9 @@ theorem fold_strict (arcs : List (Key × Arc)) (g : Graph) (hg : C15.Inv g) (hs 
   | nil => exact ⟨hs, hg⟩
   | cons e rest ih =>
     rw [List.foldl_cons]
-    exact ih _ (C15.gstep_inv _ g _ hg) (strict_step_aux g hg hs _ (fun nm h => by cases h))
+    exact ih _ (C15.gstep_inv _ g _ hg) (strict_step' g hg hs _)
 
-/-! ## statements to prove (replace every `sorry`) -/
+/-! ## the property statements -/
 
 /-- **objective = summed cost of the moves made plus each vehicle's per-move surcharge** (every one of
     the `L−1` moves of every vehicle counts, staying at the depot included) -/
@@ -160,17 +183,89 @@ theorem new_strict_arcs (src : Graph) (hsrc : C15.Inv src) :
     cases hh : g1.nodes.head? with
     | none => exact ⟨hs, hg⟩
     | some n0 =>
-      refine ⟨strict_step_aux g1 hg hs _ ?_, C15.gstep_inv _ g1 _ hg⟩
-      intro nm hnm
-      cases hnm
-      simp [Graph.names, List.head?_map, hh]
+      exact ⟨strict_step' g1 hg hs _, C15.gstep_inv _ g1 _ hg⟩
   exact key _ hs1 hg1
 
-/-- later strict `add_arc` / `set_depot` / `add_node` calls keep the strict rule -/
+/-- later strict `add_arc` / `set_depot` / `add_node` calls keep the strict rule (the side condition on
+    `set_depot` is no longer needed, see `strict_step'`) -/
 theorem strict_step (g : Graph) (hg : C15.Inv g) (hs : StrictArcs g) (op : GOp)
-    (hdep : ∀ nm, op = .setDepot nm → g.names.head? = some nm) :
+    (_hdep : ∀ nm, op = .setDepot nm → g.names.head? = some nm) :
     StrictArcs (gstep (.seq true) g op).1 :=
-  strict_step_aux g hg hs op hdep
+  strict_step' g hg hs op
+
+theorem strictArcs_init : StrictArcs {} := by
+  intro e he; simp at he
+
+theorem strictArcs_grun_of (ops : List GOp) (g : Graph) (hs : StrictArcs g) (hg : C15.Inv g) :
+    StrictArcs (grun (.seq true) g ops) ∧ C15.Inv (grun (.seq true) g ops) := by
+  induction ops generalizing g with
+  | nil => exact ⟨hs, hg⟩
+  | cons op rest ih => exact ih _ (strict_step' g hg hs op) (C15.gstep_inv _ g op hg)
+
+/-- **every graph built by any call history on a fresh strict object obeys the strict rule**
+    (and is self-consistent) -/
+theorem strictArcs_reachable (ops : List GOp) :
+    StrictArcs (grun (.seq true) {} ops) ∧ C15.Inv (grun (.seq true) {} ops) :=
+  strictArcs_grun_of ops {} strictArcs_init C15.inv_init
+
+/-! ### regression: the pinned strict `set_depot` loses the strict rule -/
+
+/-- nodes `a [0,10]`, `b [0,1]`, `x [0,∞)`; the arc `a → b` (travel 1) was admitted by the strict `add_arc`
+    because `a` was first (depot exemption: `0 + 1 ≤ 1`) -/
+def pinnedWitness : Graph :=
+  { nodes := [⟨"a", 0, 0, some 10⟩, ⟨"b", 0, 0, some 1⟩, ⟨"x", 0, 0, none⟩],
+    arcs := [((0, 1), ⟨"a", "b", 1, 1⟩)] }
+
+theorem pinnedWitness_inv : C15.Inv pinnedWitness := by
+  refine ⟨by decide +kernel, ?_, by decide +kernel, ?_⟩
+  · intro n hn
+    simp only [pinnedWitness, List.mem_cons, List.not_mem_nil, or_false] at hn
+    rcases hn with rfl | rfl | rfl <;> decide +kernel
+  · intro e he
+    simp only [pinnedWitness, List.mem_cons, List.not_mem_nil, or_false] at he
+    subst he
+    exact ⟨⟨"a", 0, 0, some 10⟩, ⟨"b", 0, 0, some 1⟩, rfl, rfl, rfl, rfl, by decide +kernel⟩
+
+theorem pinnedWitness_strict : StrictArcs pinnedWitness := by
+  intro e he hne
+  simp only [pinnedWitness, List.mem_cons, List.not_mem_nil, or_false] at he
+  subst he
+  exact absurd rfl hne
+
+/-- it is the history `add_node a, b, x; add_arc a b` on a fresh strict object -/
+theorem pinnedWitness_reachable :
+    grun (.seq true) {} [.addNode "a" 0 0 (some 10), .addNode "b" 0 0 (some 1), .addNode "x" 0 0 none,
+      .addArc "a" "b" 1 1] = pinnedWitness := by
+  have ext : ∀ g g' : Graph, g.nodes = g'.nodes → g.arcs = g'.arcs → g.cap = g'.cap → g.init = g'.init →
+      g = g' := by
+    intro g g' h1 h2 h3 h4
+    cases g; cases g'; simp_all
+  apply ext <;> decide +kernel
+
+/-- the pinned strict `set_depot` (no re-check) breaks the strict rule: after `set_depot x` the arc `a → b`
+    sits at `(1, 2)`, its origin is no longer the depot, and `10 + 1 ≤ 1` fails -/
+theorem pinned_strict_setDepot_unsound :
+    ∃ g : Graph, C15.Inv g ∧ StrictArcs g ∧ ¬ StrictArcs (gstepPinnedStrictDepot g "x").1 := by
+  refine ⟨pinnedWitness, pinnedWitness_inv, pinnedWitness_strict, ?_⟩
+  intro h
+  have hmem : (((1, 2), ⟨"a", "b", 1, 1⟩) : Key × Arc) ∈ (gstepPinnedStrictDepot pinnedWitness "x").1.arcs := by
+    decide +kernel
+  have h1 : (gstepPinnedStrictDepot pinnedWitness "x").1.hi 1 = some 10 := by decide +kernel
+  have h2 : (gstepPinnedStrictDepot pinnedWitness "x").1.hi 2 = some 1 := by decide +kernel
+  have := h _ hmem (by decide)
+  simp only [h1, h2] at this
+  exact absurd this (by decide +kernel)
+
+/-- the repaired strict `set_depot` on the same witness: the arc `a → b` is dropped by the re-check and the
+    strict rule holds -/
+theorem repaired_strict_setDepot_witness :
+    StrictArcs (gstep (.seq true) pinnedWitness (.setDepot "x")).1 :=
+  strict_step' pinnedWitness pinnedWitness_inv pinnedWitness_strict _
+
+/-- concretely: only the depot self-arc is left -/
+theorem repaired_strict_setDepot_witness_arcs :
+    (gstep (.seq true) pinnedWitness (.setDepot "x")).1.arcs = [((0, 0), ⟨"x", "x", 0, 0⟩)] := by
+  decide +kernel
 
 /-- **strict mode: every walk meets all time windows** of the underlying VRPTW (arrive early and wait,
     never late), for every vehicle and every position -/
